@@ -42,13 +42,19 @@ def main():
     from rv.ctx import Ctx
 
     ctx = Ctx(pid, shard.get('tier', 'quick'), int(shard.get('seed', 0)), shard)
-    if shard.get('env_variant') == 'logging DEBUG':
+    if str(shard.get('env_variant', '')).startswith('process state'):
         import logging
 
         logging.basicConfig(level=logging.DEBUG, handlers=[logging.NullHandler()], force=True)
         logging.getLogger().setLevel(logging.DEBUG)
         for name in ('scipp', 'scipp.neutron', 'scippneutron'):
             logging.getLogger(name).setLevel(logging.DEBUG)
+    if str(shard.get('env_variant', '')).startswith('process state'):
+        # ... and the caller's other process-wide state while package code runs: decimal context of 6 digits, numpy
+        # legacy print mode (harness code runs outside the scope)
+        from rv.trace import Tracer
+
+        Tracer.strict = {'decimal_prec': 6}
     if shard.get('env_variant') == 'strict caller':
         from rv.trace import Tracer
 
